@@ -33,11 +33,20 @@ func (rc *arrayCodec) Read(r *ReadBuf, p unsafe.Pointer) error {
 			}
 		}
 
-		// If our array is nil or undersized then we can fix it up here.
-		*sh = rc.resizeSlice(*sh, int(count))
+		// If our array is nil or undersized then we can fix it up here. The count
+		// comes from the input, so it is trusted only for as many items as the
+		// remaining data could hold; beyond that the slice grows as items arrive.
+		prealloc := count
+		if remaining := int64(r.Len()) + 1; prealloc > remaining {
+			prealloc = remaining
+		}
+		*sh = rc.resizeSlice(*sh, int(prealloc))
 
 		itemSize := rc.itemType.Size()
 		for i := int64(0); i < count; i++ {
+			if sh.Len == sh.Cap {
+				*sh = rc.resizeSlice(*sh, sh.Cap+1)
+			}
 			cursor := unsafe.Pointer(uintptr(sh.Data) + uintptr(sh.Len)*itemSize)
 			if err := rc.itemCodec.Read(r, cursor); err != nil {
 				return fmt.Errorf("failed to decode array entry %d. %w", i, err)
